@@ -89,6 +89,8 @@ struct token
     int precision;
 };
 
+inline z3::expr var(std::string const& n);
+
 class engine
 {
 public:
@@ -349,13 +351,13 @@ public:
     z3::expr fresh(std::string const& base)
     {
         std::string n = base + "!" + std::to_string(fresh_counter++);
-        return ctx.real_const(n.c_str());
+        return var(n);
     }
 
     z3::expr input(std::string const& name)
     {
         std::string n = name + "#" + std::to_string(inputs.size());
-        z3::expr e = ctx.real_const(n.c_str());
+        z3::expr e = var(n);
         inputs.push_back(e);
         input_names.push_back(n);
         return e;
@@ -370,6 +372,48 @@ public:
 };
 
 inline engine& E() { return engine::get(); }
+
+#ifdef SYM_FP
+constexpr bool bit_precise = true;
+#else
+constexpr bool bit_precise = false;
+#endif
+
+#ifdef SYM_FP
+// bit-precise mode: sym::real is an IEEE binary floating point value of the numeric flavour (z3 FloatingPoint
+// theory, round to nearest even): rounding, overflow, NaN, infinities and signed zeros are exact; pow/log are
+// not available (paths that need them are abandoned and reported)
+#if SYM_DIGITS == 24
+#define SYM_FP_EBITS 8
+#elif SYM_DIGITS == 53
+#define SYM_FP_EBITS 11
+#else
+#define SYM_FP_EBITS 15
+#endif
+inline z3::sort fp_sort() { return E().ctx.fpa_sort(SYM_FP_EBITS, SYM_DIGITS); }
+inline z3::expr num(long double v)
+{
+    engine& g = E();
+    g.ctx.set_rounding_mode(z3::RNE);
+    z3::sort s = fp_sort();
+    if (std::isnan(v)) return g.ctx.fpa_nan(s);
+    if (std::isinf(v)) return g.ctx.fpa_inf(s, v < 0);
+    // constants of the library and of the harnesses are exactly representable in double; larger precision is
+    // only needed for the 80 bit flavour and goes through an exact double + rest decomposition
+    double const hi = static_cast<double>(v);
+    z3::expr a(g.ctx, Z3_mk_fpa_numeral_double(g.ctx, hi, s));
+    long double const rest = v - static_cast<long double>(hi);
+    if (rest == 0) return a;
+    z3::expr b(g.ctx, Z3_mk_fpa_numeral_double(g.ctx, static_cast<double>(rest), s));
+    return (a + b).simplify();
+}
+inline z3::expr var(std::string const& n) { return E().ctx.constant(n.c_str(), fp_sort()); }
+inline z3::expr eqn(z3::expr const& a, z3::expr const& b) { return z3::fp_eq(a, b); }
+inline z3::expr special_bool(z3::expr const& a) { return a.mk_is_nan() || a.mk_is_inf(); }
+#else
+inline z3::expr var(std::string const& n) { return E().ctx.real_const(n.c_str()); }
+inline z3::expr eqn(z3::expr const& a, z3::expr const& b) { return a == b; }
+#endif
 
 template <typename A>
 using if_arith = typename std::enable_if<std::is_arithmetic<A>::value, int>::type;
@@ -423,7 +467,11 @@ public:
     int k;
     z3::expr e;
 
+#ifdef SYM_FP
+    real() : k(FIN), e(num(0.0L)) {}
+#else
     real() : k(FIN), e(E().ctx.real_val(0)) {}
+#endif
 
     template <typename A, if_arith<A> = 0>
     real(A v) : k(FIN), e(E().ctx)
@@ -436,7 +484,14 @@ public:
     static real special(int kind)
     {
         real r;
+#ifdef SYM_FP
+        // NaN and the infinities are ordinary values of the floating point sort
+        if (kind == NANK) r.e = num(std::numeric_limits<long double>::quiet_NaN());
+        else if (kind == PINF) r.e = num(std::numeric_limits<long double>::infinity());
+        else if (kind == NINF) r.e = num(-std::numeric_limits<long double>::infinity());
+#else
         r.k = kind;
+#endif
         return r;
     }
 
@@ -446,12 +501,21 @@ public:
     operator std::size_t() const
     {
         engine& g = E();
+#ifdef SYM_FP
+        if (g.branch(special_bool(e)))
+        {
+            g.ub("convert non-finite to size_t");
+            throw abort_path{"ub:fptoui-nonfinite"};
+        }
+        if (g.branch(e <= num(-1.0L)))
+#else
         if (k != FIN)
         {
             g.ub("convert non-finite to size_t");
             throw abort_path{"ub:fptoui-nonfinite"};
         }
         if (g.branch(e <= g.ctx.real_val(-1)))
+#endif
         {
             {
                 std::ostringstream o;
@@ -465,12 +529,20 @@ public:
         }
         for (std::size_t i = 0; i < g.conv_cap; ++i)
         {
+#ifdef SYM_FP
+            if (g.branch(e < num(static_cast<long double>(i + 1))))
+#else
             if (g.branch(e < g.ctx.real_val(static_cast<int>(i + 1))))
+#endif
             {
                 return i;
             }
         }
+#ifdef SYM_FP
+        if (g.branch(e >= num(18446744073709551616.0L)))
+#else
         if (g.branch(e >= g.ctx.real_val("18446744073709551616")))
+#endif
         {
             g.ub("convert value >= 2^64 to size_t");
             throw abort_path{"ub:fptoui-too-large"};
@@ -485,6 +557,16 @@ public:
     real& operator/=(real const& o);
 
 private:
+#ifdef SYM_FP
+    template <typename A>
+    void init(A v, std::true_type) { e = num(static_cast<long double>(v)); }
+    template <typename A>
+    void init(A v, std::false_type)
+    {
+        // integer -> floating point conversion rounds to nearest (as the hardware does)
+        e = num(static_cast<long double>(static_cast<SYM_NATIVE>(v)));
+    }
+#else
     template <typename A>
     void init(A v, std::true_type)
     {
@@ -505,14 +587,15 @@ private:
         else
             e = E().ctx.real_val(std::to_string(static_cast<unsigned long long>(v)).c_str());
     }
+#endif
 };
 
 // sign of a finite value: +1, -1 or 0 (forks)
 inline int sign_of(real const& a)
 {
     engine& g = E();
-    if (g.branch(a.e > 0)) return 1;
-    if (g.branch(a.e < 0)) return -1;
+    if (g.branch(a.e > real(0).e)) return 1;
+    if (g.branch(a.e < real(0).e)) return -1;
     return 0;
 }
 
@@ -549,6 +632,9 @@ inline real mul(real const& a, real const& b)
 inline real div(real const& a, real const& b)
 {
     engine& g = E();
+#ifdef SYM_FP
+    return real((a.e / b.e).simplify());
+#endif
     if (a.k == NANK || b.k == NANK) return real::special(NANK);
     if (a.k != FIN && b.k != FIN) return real::special(NANK);
     if (a.k == FIN && b.k != FIN) return real(g.ctx.real_val(0));
@@ -596,7 +682,7 @@ inline bool le(real const& a, real const& b)
 inline bool eq(real const& a, real const& b)
 {
     if (a.k == NANK || b.k == NANK) return false;
-    if (a.k == FIN && b.k == FIN) return E().branch(a.e == b.e);
+    if (a.k == FIN && b.k == FIN) return E().branch(eqn(a.e, b.e));
     return a.k == b.k;
 }
 
@@ -626,12 +712,21 @@ SYM_CMP(>=, le(b, a))
 SYM_CMP(==, eq(a, b))
 SYM_CMP(!=, !eq(a, b))
 
+#ifdef SYM_FP
+inline bool isfinite(real const& a) { return !E().branch(special_bool(a.e)); }
+inline bool isnan(real const& a) { return E().branch(a.e.mk_is_nan()); }
+inline bool isinf(real const& a) { return E().branch(a.e.mk_is_inf()); }
+#else
 inline bool isfinite(real const& a) { return a.k == FIN; }
 inline bool isnan(real const& a) { return a.k == NANK; }
 inline bool isinf(real const& a) { return a.k == PINF || a.k == NINF; }
+#endif
 
 inline real fabs(real const& a)
 {
+#ifdef SYM_FP
+    return real(z3::abs(a.e).simplify());
+#endif
     if (a.k == FIN) return real(z3::ite(a.e < 0, -a.e, a.e).simplify());
     if (a.k == NANK) return a;
     return real::special(PINF);
@@ -640,6 +735,9 @@ inline real abs(real const& a) { return fabs(a); }
 
 inline real fmax(real const& a, real const& b)
 {
+#ifdef SYM_FP
+    return real(z3::ite(a.e.mk_is_nan(), b.e, z3::ite(b.e.mk_is_nan(), a.e, z3::ite(a.e >= b.e, a.e, b.e))).simplify());
+#endif
     if (a.k == NANK) return b;
     if (b.k == NANK) return a;
     if (a.k == FIN && b.k == FIN) return real(z3::ite(a.e >= b.e, a.e, b.e).simplify());
@@ -649,6 +747,9 @@ inline real fmax(real const& a, real const& b)
 
 inline real fmin(real const& a, real const& b)
 {
+#ifdef SYM_FP
+    return real(z3::ite(a.e.mk_is_nan(), b.e, z3::ite(b.e.mk_is_nan(), a.e, z3::ite(a.e <= b.e, a.e, b.e))).simplify());
+#endif
     if (a.k == NANK) return b;
     if (b.k == NANK) return a;
     if (a.k == FIN && b.k == FIN) return real(z3::ite(a.e <= b.e, a.e, b.e).simplify());
@@ -659,6 +760,10 @@ inline real fmin(real const& a, real const& b)
 inline real sqrt(real const& a)
 {
     engine& g = E();
+#ifdef SYM_FP
+    g.ctx.set_rounding_mode(z3::RNE);
+    return real(z3::sqrt(a.e, g.ctx.fpa_rounding_mode()).simplify());
+#endif
     if (a.k == NANK || a.k == NINF) return real::special(NANK);
     if (a.k == PINF) return a;
     if (g.branch(a.e < 0)) return real::special(NANK);
@@ -692,6 +797,10 @@ inline real sqrt(real const& a)
 inline real log(real const& a)
 {
     engine& g = E();
+#ifdef SYM_FP
+    (void) a;
+    throw abort_path{"cap:log-in-bit-precise-mode"};
+#endif
     if (a.k == NANK || a.k == NINF) return real::special(NANK);
     if (a.k == PINF) return a;
     if (g.branch(a.e == 0)) return real::special(NINF);
@@ -713,6 +822,11 @@ inline real log(real const& a)
 inline real pow(real const& x, real const& a)
 {
     engine& g = E();
+#ifdef SYM_FP
+    if (g.branch(eqn(a.e, real(0).e))) return real(1);
+    if (g.branch(eqn(a.e, real(1).e)) && !g.branch(special_bool(x.e))) return x;
+    throw abort_path{"cap:pow-in-bit-precise-mode"};
+#endif
     if (a.k == FIN && g.branch(a.e == 0)) return real(g.ctx.real_val(1));
     if (x.k == NANK || a.k == NANK) return real::special(NANK);
     if (a.k != FIN || x.k != FIN)
@@ -751,6 +865,15 @@ inline real pow(real const& x, A a) { return pow(x, real(a)); }
 inline real nexttoward(real const& x, real const& /*to*/)
 {
     engine& g = E();
+#ifdef SYM_FP
+    // only used as nexttoward(1, 0): the largest value below one
+    if (g.branch(eqn(x.e, real(1).e)))
+    {
+        long double const one = 1.0L;
+        return real(num(static_cast<long double>(std::nexttoward(static_cast<SYM_NATIVE>(one), 0.0L))));
+    }
+    throw abort_path{"cap:nexttoward-other-than-one"};
+#endif
     z3::expr v = g.fresh("nexttoward");
     if (x.k == FIN)
     {
@@ -780,7 +903,7 @@ inline std::ostream& operator<<(std::ostream& out, real const& a)
     t.ast_index = static_cast<unsigned>(g.token_exprs.size());
     t.scientific = (out.flags() & std::ios_base::floatfield) == std::ios_base::scientific;
     t.precision = static_cast<int>(out.precision());
-    g.token_exprs.push_back(a.k == FIN ? a.e : g.ctx.real_val(0));
+    g.token_exprs.push_back(a.k == FIN ? a.e : real(0).e);
     g.tokens.push_back(t);
     out << '@' << (g.tokens.size() - 1);
     return out;
@@ -917,8 +1040,8 @@ inline sym::real generate_canonical<sym::real, SYM_DIGITS, sym::stub_engine>(sym
         return it->second;
     }
     z3::expr u = e.input("u" + std::to_string(p));
-    e.define(u >= 0);
-    if (sym::canon_table<sym::real>::closed()) e.define(u <= 1); else e.define(u < 1);
+    e.define(u >= sym::real(0).e);
+    if (sym::canon_table<sym::real>::closed()) e.define(u <= sym::real(1).e); else e.define(u < sym::real(1).e);
     sym::real r(u);
     tab.emplace(p, r);
     return r;
